@@ -366,9 +366,11 @@ impl<'de> Deserialize<'de> for Image {
                         "missing size".to_owned(),
                     )));
                 };
-                let expected_size = channels
-                    .checked_mul(size.height)
-                    .and_then(|size_bytes| size_bytes.checked_mul(size.width));
+                // NOTE: pixel count is computed first, image without pixels can have huge dimension
+                let expected_size = size
+                    .height
+                    .checked_mul(size.width)
+                    .and_then(|pixels| pixels.checked_mul(channels));
                 let data_size = data.len();
                 if Some(data_size) != expected_size {
                     return Err(de::Error::custom(Error::ParseError(
